@@ -174,3 +174,8 @@ def run(ctx):
     from engine.fdvalid import fd_valid
     fd_valid(ctx, prog)
 
+    ctx.rule('IO-COUNT', 'in every loop that works off a remaining count R (R -= V in the body), each psf_fread / psf_fwrite of the body transfers exactly V, or R is decremented by the call\'s own result: '
+             'what is transferred is what is accounted for (the pipe route of header_seek skips by reading and must not swallow bytes of the following chunk)', floor=100)
+    from engine.iocount import io_count
+    ctx.require(io_count(ctx, prog) >= 100, 'too few accounted transfers found')
+
